@@ -5,7 +5,8 @@
    production and consumption) is runtime behaviour outside the model; the correspondence check
    consumes the real stream event by event. *)
 From Coq Require Import ZArith List String Bool.
-From TV Require Import Py.Prelude Model.Schema Model.ImplInput Model.ImplExec Model.Subscribe.
+From TV Require Import Py.Prelude Model.Schema Model.ImplInput Model.ImplExec Model.Subscribe Model.ImplValidate Model.SubscribeValidated
+     Proofs.ValidateWalk Proofs.SingleRoot.
 Import ListNotations.
 Open Scope string_scope.
 Open Scope list_scope.
@@ -72,7 +73,38 @@ Qed.
 
 End C14.
 
+(* validation in front of the subscription executor (Model/SubscribeValidated.v): a document the validation walk
+   refuses is answered with ONE errors-only response and no source stream is created ... *)
+Theorem C14_refused_document_never_starts_the_source V U cfg source has_source doc opname raw :
+  accepted V doc = false ->
+  exists r, validate_and_subscribe V U cfg source has_source doc opname raw = SubRefused r /\
+            r_data r = PNone /\ r_errors r <> [] /\ r_log r = [].
+Proof. exact (refused_subscription_never_starts V U cfg source has_source doc opname raw). Qed.
+
+(* ... in particular a subscription reaching two different root response keys through fields and inline fragments *)
+Theorem C14_two_root_fields_never_start_the_source V U cfg source has_source doc opname raw o :
+  In o (operations doc) -> o_kind o = OpSubscription -> two_root_keys (o_sels o) ->
+  exists r, validate_and_subscribe V U cfg source has_source doc opname raw = SubRefused r /\ r_data r = PNone /\ r_errors r <> [].
+Proof.
+  intros Hin Hk Htwo.
+  assert (Hacc : accepted V doc = false).
+  { destruct (accepted V doc) eqn:E; [|reflexivity]. exfalso.
+    apply accepted_iff_clean, validate_clean_iff in E. destruct E as (_ & _ & _ & _ & Hq & _).
+    exact (single_root_rule_refuses doc o Hin Hk Htwo Hq). }
+  destruct (refused_subscription_never_starts V U cfg source has_source doc opname raw Hacc) as (r & H1 & H2 & H3 & _).
+  exists r. auto.
+Qed.
+
+(* an accepted document is executed by the subscription executor unchanged *)
+Theorem C14_accepted_document_is_executed V U cfg source has_source doc opname raw :
+  accepted V doc = true ->
+  validate_and_subscribe V U cfg source has_source doc opname raw = impl_subscribe (vs V) doc U cfg source has_source opname raw.
+Proof. exact (accepted_subscription_is_executed V U cfg source has_source doc opname raw). Qed.
+
 Print Assumptions C14_subscribe_is_map.
 Print Assumptions C14_one_response_per_event.
 Print Assumptions C14_responses_pointwise.
 Print Assumptions C14_refused_request_single_response.
+Print Assumptions C14_refused_document_never_starts_the_source.
+Print Assumptions C14_two_root_fields_never_start_the_source.
+Print Assumptions C14_accepted_document_is_executed.
